@@ -302,6 +302,10 @@ func isWrapper(f *core.Func, call *ast.CallExpr, callNode *core.GNode, seeds []t
 					if strings.HasSuffix(nm, ".getNodeSize") {
 						return false
 					}
+					// a call that yields nothing (a logger such as debugln(...)) cannot turn the result into an answer
+					if sig, isSig := info.TypeOf(s.Fun).(*types.Signature); isSig && sig.Results().Len() == 0 {
+						return false
+					}
 					ok = false
 				}
 				return false
